@@ -468,8 +468,11 @@ alloc_tail_pfn_block(kdump_ctx_t *ctx, struct pfn_block *block,
 
 	blockoff = block->offs[nextidx];
 	next->filepos = block->filepos + blockoff;
-	for (idx = 0; idx < next->n; ++idx)
-		next->offs[idx] = block->offs[++nextidx] - blockoff;
+	for (idx = 0; idx < next->n; ++idx) {
+		/* Zero means that the offset is not known yet. */
+		uint32_t off = block->offs[++nextidx];
+		next->offs[idx] = off ? off - blockoff : 0;
+	}
 
 	next->next = block->next;
 	block->next = next;
